@@ -27,3 +27,21 @@ PROPS["C18"] = dict(
     level_text="Kani/CBMC full-domain proof of the permission subset test over all 256x256 pairs",
     level_note="only the permission predicate so far",
 )
+
+PROPS["C03"] = dict(
+    level="proof",
+    verus=[],
+    kani=[KaniSet("src/filters/network_matchers.rs", "c03_options.rs", [
+        Harness("c03_options_nodomain", "C03.options.nodomain", "C", "full domain: 2^32 masks x 17 request types x scheme x party; loop-free"),
+        Harness("c03_type_bit", "C03.type_bit", "C", "all 17 request types"),
+        Harness("c03_options_domains", "C03.options.domains", "B", "<=2 source hashes x <=2 included x <=2 excluded over an 8-value hash universe (loop bound 4, unwinding assertions on)"),
+    ]),
+    KaniSet("src/request.rs", "c03_request.rs", [
+        Harness("c03_request_classify", "C03.request.classify", "C", "every (type alias, scheme, party) of the 24-entry alias table x 9 schemes; string loops bounded by the longest literal (unwind 20, unwinding assertions on)"),
+    ])],
+    trusted=[],
+    assumptions=[],
+    explanation="",
+    level_text="x",
+    level_note="x",
+)
